@@ -178,6 +178,19 @@ def param_table(kind, n, m):
         return 0.35 + 0.25 * h - 0.2 * k + 0.15 * ((h * (k + 2)) % 3)
     if kind == "ones":          # the symmetric pulse of the repository's tests
         return np.ones((2 * n, m))
+    if kind == "constcol":      # a drive with constant detuning: the last column never changes, the others always do
+        t = 0.35 + 0.25 * h - 0.2 * k + 0.15 * ((h * (k + 2)) % 3)
+        t[:, m - 1] = 0.45
+        return t
+    if kind == "staircase":     # exactly one column changes from one half step to the next, in turn
+        t = np.full((2 * n, m), 0.4) - 0.1 * k
+        for r in range(1, 2 * n):
+            t[r] = t[r - 1]
+            t[r, (r - 1) % m] += 0.3 + 0.05 * r
+        return t
+    if kind == "fullstep":      # piecewise constant over whole steps: the two half steps of a step are equal
+        t = 0.35 + 0.25 * (h // 2) - 0.2 * k + 0.15 * (((h // 2) * (k + 2)) % 3)
+        return t
     if kind == "zero":          # stationary point of the quadratic coefficients
         return np.zeros((2 * n, m))
     raise ValueError(kind)
@@ -484,6 +497,11 @@ def build_cases(tier):
     if not thorough:
         for n, env, tgt, deriv in itertools.product([2, 3], ["anc1", "anc2n", "tempo1"], ["state", "nonlin"], derivs):
             add(2, n, 2, "jump", env, tgt, deriv, "generic", fam="targets")
+    # parameter tables with partial repetition between consecutive half steps (constant column, one column at a time,
+    # equal half steps) -- the patterns of piecewise-constant controls
+    for n, m, model, env, deriv, table in itertools.product([2, 3], [2, 3], ["H", "all"], ["anc1", "tempo1"], derivs,
+                                                            ["constcol", "staircase", "fullstep"]):
+        add(2, n, m, model, env, "matrix", deriv, table, fam="tables")
     # process tensors whose last bond is closed by a non-trivial cap tensor
     for n, env, deriv in itertools.product([1, 2, 3], ["anc1x", "anc2x"], derivs):
         add(2, n, 1, "H", env, "matrix", deriv, "generic", fam="capped")
